@@ -181,6 +181,21 @@ func (c06Engine) Gen(job *Job) *Case {
 			e.MapMode, e.MapSites = 0, nil
 			fresh = true
 		}
+		if i == 2 && r.Chance(1, 8) {
+			// soak repetition: small projects many times, larger ones a few dozen times
+			k := r.Pick2(10, 20, 50)
+			sz := 0
+			for _, f := range c.Project.Files {
+				sz += len(f.Data)
+			}
+			if sz < 2500 && r.Chance(1, 3) {
+				k = r.Pick2(300, 1000)
+				if job.Tier == "thorough" {
+					k = r.Pick2(1000, 3000)
+				}
+			}
+			e = Env{Repeat: k}
+		}
 		if !fresh && i == 1 && r.Chance(1, 7) {
 			// one repetition concurrently with other builds, canonical map order
 			e = Env{Ambient: e.Ambient, Conc: r.Range(1, 2), ConcSeed: r.U64()}
@@ -367,6 +382,32 @@ func (c06Engine) Exec(c *Case, job *Job) *Result {
 			res.NonTrivial = true
 			keyParts = append(keyParts, "fresh")
 			must(Materialise(c.Project.Files)) // the child used its own directory; ours is untouched, but keep the invariant explicit
+		} else if rep.Env.Repeat > 1 {
+			// soak: the same project, over and over, in one process (a resource that is used up, a
+			// table that fills, a counter that wraps only shows after many builds)
+			canonicalEnv()
+			simrt.SetOSHook(nil)
+			text = ""
+			for k := 0; k < rep.Env.Repeat; k++ {
+				var sb strings.Builder
+				o := buildCase(c)
+				sb.WriteString("build: " + o.Text() + "\n")
+				if o.OK {
+					sb.WriteString("ToJson: " + call(o.japi, "ToJson").Text() + "\n")
+					sb.WriteString("ToOpenAPIJson: " + call(o.japi, "ToOpenAPIJson").Text() + "\n")
+					sb.WriteString("Title: " + call(o.japi, "Title").Text() + "\n")
+				}
+				if k == 0 {
+					text = sb.String()
+				} else if sb.String() != text {
+					text = sb.String()
+					res.count("soak:first-differing-iteration", k)
+					break
+				}
+			}
+			res.count("env:soak-builds", rep.Env.Repeat)
+			res.NonTrivial = true
+			keyParts = append(keyParts, fmt.Sprintf("soak%d", rep.Env.Repeat))
 		} else if rep.Env.Conc > 0 {
 			var foreign string
 			text, foreign = observeConc(c, rep.Env, c.Seed+uint64(i+1))
@@ -413,6 +454,8 @@ func (c06Engine) Exec(c *Case, job *Job) *Result {
 		if text != ref {
 			what := "map-order"
 			switch {
+			case rep.Env.Repeat > 1:
+				what = "repeated-builds-in-one-process"
 			case rep.Env.Conc > 0:
 				what = "concurrent-builds"
 			case rep.Env.Fresh:
@@ -438,7 +481,7 @@ func (c06Engine) Exec(c *Case, job *Job) *Result {
 			}
 			sig := comp + " under " + what
 			known := false
-			if rep.Env.MapMode != 0 && !rep.Env.Fresh && rep.Env.Conc == 0 {
+			if rep.Env.MapMode != 0 && !rep.Env.Fresh && rep.Env.Conc == 0 && rep.Env.Repeat <= 1 {
 				// Attribution: which single map site, permuted alone, makes the observation differ?
 				culprits, knownOnly, residual := c06Culprits(c, rep.Env, c.Seed+uint64(i+1), ref, perm)
 				sig += " culprits=[" + strings.Join(culprits, ",") + "]"
@@ -552,6 +595,11 @@ func (c06Engine) Shrinks(c *Case) []*Case {
 		if e.Prior > 0 {
 			d := cloneCase(c)
 			d.Reps[i].Env.Prior = 0
+			out = append(out, d)
+		}
+		if e.Repeat > 2 {
+			d := cloneCase(c)
+			d.Reps[i].Env.Repeat = e.Repeat / 2
 			out = append(out, d)
 		}
 		if e.Pool != 0 || e.DropAll {
